@@ -59,7 +59,7 @@ def extract(mod, src_state, crate):
     return rels, PRE, info, (ipo, imt, fields)
 
 
-def check(name, solver_assertions, expect_unsat=True, timeout=60000):
+def check(name, solver_assertions, expect_unsat=True, timeout=60000, replay=None):
     s = z3.Solver()
     s.set('timeout', timeout)
     s.add(*solver_assertions)
@@ -70,6 +70,13 @@ def check(name, solver_assertions, expect_unsat=True, timeout=60000):
         m = s.model()
         res['model'] = {str(d): str(m[d]) for d in m.decls() if not str(d).startswith(('k!', 'opq'))}
     res['ok'] = (r == z3.unsat) if expect_unsat else (r == z3.sat)
+    if replay is not None and not expect_unsat and r != z3.sat and 'witness' in replay:
+        res['replay'] = dict(kind=replay['kind'], model=replay['witness'])
+    if replay is not None and r == z3.sat and expect_unsat:
+        mm = dict(replay.get('fixed', {}))
+        for k, v in res['model'].items():
+            mm[replay.get('rename', {}).get(k, k)] = v
+        res['replay'] = dict(kind=replay['kind'], model=mm)
     return res
 
 
@@ -82,6 +89,9 @@ def run(crate, mir_path, state_src, K):
     ARG = Obj('new_owner').scalar()
     ADMIN = summ.ADMIN
     results = []
+    ren = {str(PRE['pd']): 'pd0', str(PRE['pe']): 'pe0', str(PRE['md']): 'md0', str(PRE['mi']): 'mi0', str(NOW): 'now0', str(SND): 'snd0', str(ARG): 'arg0', str(ADMIN): 'adm0'}
+    rp = lambda op: dict(kind='own-' + crate, fixed={'op0': str(op)}, rename=ren)
+    rph = dict(kind='own-' + crate)
     dom = [z3.Or(PRE['pd'] == 0, PRE['pd'] == 1), z3.Or(PRE['md'] == 0, PRE['md'] == 1), NOW >= 0, NOW < TMAX, PRE['mi'] >= 0, PRE['mi'] < 2 ** 64]
 
     def conclusive(e, what):
@@ -95,7 +105,7 @@ def run(crate, mir_path, state_src, K):
     ok_acc = z3.Or(*[r['cond'] for r in acc if r['kind'] == 'ok']) if any(r['kind'] == 'ok' for r in acc) else z3.BoolVal(False)
     spec_acc = z3.And(z3.Or(PRE['md'] == 0, PRE['mi'] <= NOW), PRE['pd'] == 1, PRE['pe'] == SND)
     if conclusive(ok_acc, 'accept'):
-        results.append(check(f'{crate}: accept succeeds <=> (no time lock or lock <= now) and pending_owner = Some(sender)', dom + [ok_acc != spec_acc]))
+        results.append(check(f'{crate}: accept succeeds <=> (no time lock or lock <= now) and pending_owner = Some(sender)', dom + [ok_acc != spec_acc], replay=rp(2)))
     for r in acc:
         if r['kind'] == 'ok':
             bad = []
@@ -107,38 +117,39 @@ def run(crate, mir_path, state_src, K):
                 bad.append(z3.BoolVal(True))
             else:
                 bad.append(r['st'][0][0] != 0)  # pending consumed
-            results.append(check(f'{crate}: successful accept sets admin = sender and clears the nomination', dom + [r['cond'], z3.Or(*bad)]))
+            results.append(check(f'{crate}: successful accept sets admin = sender and clears the nomination', dom + [r['cond'], z3.Or(*bad)], replay=rp(2)))
             results.append(dict(name=f'{crate}: accept has no other effect', result='structural', ok=(r['other'] == []), detail=r['other']))
     results.append(dict(name=f'{crate}: accept never panics', result='structural', ok=not any(r['kind'] == 'panic' for r in acc)))
     tr = rels[0]
     ok_tr = z3.Or(*[r['cond'] for r in tr if r['kind'] == 'ok'])
     # transfer: Ok => sender = admin; and with a valid address, sender = admin => Ok (no panic for now < TMAX)
-    results.append(check(f'{crate}: nominate succeeds only for the current admin', dom + [ok_tr, SND != ADMIN]))
+    results.append(check(f'{crate}: nominate succeeds only for the current admin', dom + [ok_tr, SND != ADMIN], replay=rp(0)))
     for r in tr:
         if r['kind'] == 'ok':
             (pd2, pe2), (md2, mi2), _ = r['st'] if r['st'] else ((None, None), (None, None), None)
             if r['st'] is None:
                 results.append(dict(name=f'{crate}: nominate saves the state', result='structural', ok=False))
                 continue
-            results.append(check(f'{crate}: nominate records the nominee and a lock of exactly now + 7 days', dom + [r['cond'], z3.Not(z3.And(pd2 == 1, pe2 == ARG, md2 == 1, mi2 == NOW + SEVEN_DAYS))]))
+            results.append(check(f'{crate}: nominate records the nominee and a lock of exactly now + 7 days', dom + [r['cond'], z3.Not(z3.And(pd2 == 1, pe2 == ARG, md2 == 1, mi2 == NOW + SEVEN_DAYS))], replay=rp(0)))
             results.append(dict(name=f'{crate}: nominate does not touch the admin', result='structural', ok=(r['adm'] is None and r['other'] == [])))
     pan = [r for r in tr if r['kind'] == 'panic']
     if pan:
-        results.append(check(f'{crate}: nominate cannot overflow for block times < 2^33 s', dom + [z3.Or(*[r['cond'] for r in pan])]))
+        results.append(check(f'{crate}: nominate cannot overflow for block times < 2^33 s', dom + [z3.Or(*[r['cond'] for r in pan])], replay=rp(0)))
     rv = rels[1]
     ok_rv = z3.Or(*[r['cond'] for r in rv if r['kind'] == 'ok'])
-    results.append(check(f'{crate}: revoke succeeds only for the current admin', dom + [ok_rv, SND != ADMIN]))
+    results.append(check(f'{crate}: revoke succeeds only for the current admin', dom + [ok_rv, SND != ADMIN], replay=rp(1)))
     for r in rv:
         if r['kind'] == 'ok':
             if r['st'] is None:
                 results.append(dict(name=f'{crate}: revoke saves the state', result='structural', ok=False))
                 continue
             (pd2, pe2), (md2, mi2), _ = r['st']
-            results.append(check(f'{crate}: revoke clears nominee and lock', dom + [r['cond'], z3.Not(z3.And(pd2 == 0, md2 == 0))]))
+            results.append(check(f'{crate}: revoke clears nominee and lock', dom + [r['cond'], z3.Not(z3.And(pd2 == 0, md2 == 0))], replay=rp(1)))
             results.append(dict(name=f'{crate}: revoke does not touch the admin', result='structural', ok=(r['adm'] is None and r['other'] == [])))
     # boundary instances (both are instances of the universally quantified guard; kept as readable witnesses)
-    results.append(check(f'{crate}: accept at lock - 1 s is refused', dom + [ok_acc, PRE['md'] == 1, NOW == PRE['mi'] - 1]))
-    results.append(check(f'{crate}: accept exactly at the lock is possible (witness)', dom + [ok_acc, PRE['md'] == 1, NOW == PRE['mi']], expect_unsat=False))
+    results.append(check(f'{crate}: accept at lock - 1 s is refused', dom + [ok_acc, PRE['md'] == 1, NOW == PRE['mi'] - 1], replay=rp(2)))
+    results.append(check(f'{crate}: accept exactly at the lock is possible (witness)', dom + [ok_acc, PRE['md'] == 1, NOW == PRE['mi']], expect_unsat=False,
+                         replay=dict(kind='own-' + crate, witness={'op0': '2', 'pd0': '1', 'pe0': '5', 'snd0': '5', 'md0': '1', 'mi0': '700000', 'now0': '700000', 'adm0': '1'})))
 
     # ---- bounded histories --------------------------------------------------------------------
     s_assert = []
@@ -194,13 +205,13 @@ def run(crate, mir_path, state_src, K):
             witness.append(z3.And(op[i] == 0, okv[i], snd[i] == adm[i], arg[i] == snd[j], now[j] >= now[i] + SEVEN_DAYS, quiet))
         good = z3.And(op[j] == 2, okv[j], adm[j + 1] == snd[j], z3.Or(*witness) if witness else z3.BoolVal(False))
         bad.append(z3.And(adm[j + 1] != adm[j], z3.Not(good)))
-    results.append(check(f'{crate}: k={K} histories: admin changes only by accept of the most recent un-revoked nomination >= 7 days old', s_assert + [z3.Or(*bad)], timeout=300000))
+    results.append(check(f'{crate}: k={K} histories: admin changes only by accept of the most recent un-revoked nomination >= 7 days old', s_assert + [z3.Or(*bad)], timeout=300000, replay=rph))
     # acceptance consumes the nomination: a second accept right after a successful one fails
     bad2 = [z3.And(op[j] == 2, okv[j], op[j + 1] == 2, okv[j + 1]) for j in range(K - 1)]
-    results.append(check(f'{crate}: k={K} histories: acceptance consumes the nomination (no two consecutive successful accepts)', s_assert + [z3.Or(*bad2)], timeout=300000))
+    results.append(check(f'{crate}: k={K} histories: acceptance consumes the nomination (no two consecutive successful accepts)', s_assert + [z3.Or(*bad2)], timeout=300000, replay=rph))
     # after a handover the former admin has no admin rights: its nominate/revoke fail while it is not admin
     bad3 = [z3.And(op[j] <= 1, okv[j], snd[j] != adm[j]) for j in range(K)]
-    results.append(check(f'{crate}: k={K} histories: nominate/revoke never succeed for a non-admin (former admins included)', s_assert + [z3.Or(*bad3)], timeout=300000))
+    results.append(check(f'{crate}: k={K} histories: nominate/revoke never succeed for a non-admin (former admins included)', s_assert + [z3.Or(*bad3)], timeout=300000, replay=rph))
     # reachability (non-vacuity): a complete handover exists within k steps
     results.append(check(f'{crate}: k={K} histories: a handover is reachable (witness)', s_assert + [z3.Or(*[adm[j + 1] != adm[j] for j in range(K)])], expect_unsat=False))
     return dict(crate=crate, functions=info, results=results, K=K)
